@@ -20,5 +20,11 @@ HARNESSES = [
      'rungs': {'quick': [{'bound': 'interval 4 (timespan 40 s, spacing 10 s), pow limit lowered to the target of 0x1f7fffff so that the cap is reachable without the 256-bit product wrapping, three starting difficulties, min-difficulty rule on/off, block spacings 0..60 s in steps of 10, first block of the next period 0..30 s later (case split: 8232 patterns)', 'timeout': 250}],
                'thorough': [{'bound': 'as quick', 'timeout': 600}]}},
 ]
+import copy as _copy
+for _ts, _sp in ((60, 15), (44, 11)):                                        # other parameter sets of the same retarget code: thorough tier only
+    _h = _copy.deepcopy(HARNESSES[2])
+    _b = 'as h_retarget with timespan %d s, spacing %d s (clamps %d s / %d s, divisor %d)' % (_ts, _sp, _ts // 4, 4 * _ts, _ts)
+    _h.update({'name': 'h_retarget%d' % _ts, 'tiers': ['thorough'], 'rungs': {'thorough': [{'defines': ['TS=%d' % _ts], 'bound': _b, 'timeout': 900}]}})
+    HARNESSES.append(_h)
 EXPLANATION = 'Header acceptance of the real BTC tree is compared on every path with an independent implementation of the contextual rules written over plain integers.'
-ASSUMPTIONS = ['h_hdr crosses no retarget boundary (interval 2016); h_retarget decides the boundary arithmetic on a small interval with case-split timestamps (mainnet-size intervals use the same code with other parameters)', 'hash = 3 symbolic high bytes + id; SHA-256 not encoded', 'VBK retarget arithmetic (regtest does not retarget) and checkVbkBlockPlausibility are not covered']
+ASSUMPTIONS = ['h_hdr crosses no retarget boundary (interval 2016); h_retarget decides the boundary arithmetic on interval 4 with case-split timestamps (timespan 40 s; thorough also 60 s and 44 s; mainnet-size intervals use the same code with other parameters)', 'hash = 3 symbolic high bytes + id; SHA-256 not encoded', 'VBK retarget arithmetic (regtest does not retarget) and checkVbkBlockPlausibility are not covered']
